@@ -243,6 +243,8 @@ def run(prop, seed, budget, ctx):
         failures += ff; fallback_n = fn
         ff, fn = run_skip(rnd, seed, budget, hist, distinct)
         failures += ff; fallback_n += fn
+        ff, fn = run_inherited(rnd, budget, hist, distinct)
+        failures += ff; fallback_n += fn
     if prop == "C05":
         from discr import run_discr
         df, dn, dd, dh = run_discr(seed, budget, want=("roundtrip",))
@@ -439,6 +441,46 @@ def run_skip(rnd, seed, budget, hist, distinct):
     return failures, n
 
 
+def run_inherited(rnd, budget, hist, distinct):
+    """C04, conversions applied: the image of a value is given by the serializer of the nearest ancestor whose serializer is inherited (its own
+    class included, whatever its `inherited` flag) - at the root, as a list item, as a field, and without a type"""
+    import dataclasses
+    from typing import Dict, List
+    from apischema import serialize, serializer
+    from apischema.conversions import Conversion
+    failures, n = [], 0
+    for i in range(25 * budget):
+        A = type(f"IA{i}", (), {"__init__": lambda self, v=1: setattr(self, "v", v)})
+        B = type(f"IB{i}", (A,), {}); C = type(f"IC{i}", (B,), {}); D = type(f"ID{i}", (C,), {})
+        serializer(Conversion(lambda a: {"a": a.v}, source=A, target=Dict[str, int]))
+        flags = {"B": rnd.choice([True, False, None]), "C": rnd.choice([True, False, None])}      # None: no serializer of its own
+        if flags["B"] is not None: serializer(Conversion(lambda b: {"b": b.v}, source=B, target=Dict[str, int], inherited=flags["B"]))
+        if flags["C"] is not None: serializer(Conversion(lambda c: {"c": c.v}, source=C, target=Dict[str, int], inherited=flags["C"]))
+        def image(cls):
+            # own serializer first; then the nearest ancestor with an inherited one
+            chain = {"D": ["C", "B", "A"], "C": ["B", "A"], "B": ["A"], "A": []}[cls]
+            if cls in flags and flags[cls] is not None: return {cls.lower(): 7}
+            for anc in chain:
+                if anc == "A" or flags.get(anc): return {anc.lower(): 7}
+            return {"a": 7}
+        H = dataclasses.make_dataclass(f"IH{i}", [("x", D)])
+        for name, cls in (("A", A), ("B", B), ("C", C), ("D", D)):
+            want = image(name); v = cls(7); n += 1
+            distinct.add(case_hash("inherited", name, repr(flags)))
+            hist["inherited-serializers"] += 1
+            calls = {f"serialize({name}, v)": (lambda: serialize(cls, v), want), f"serialize(v)": (lambda: serialize(v), want),
+                     f"serialize(List[{name}], [v])": (lambda: serialize(List[cls], [v]), [want])}
+            if name == "D": calls["serialize(Holder, Holder(v))"] = (lambda: serialize(H, H(v)), {"x": want})
+            for what, (fn, exp) in calls.items():
+                try: got = fn()
+                except Exception as e: got = "EXC:" + type(e).__name__
+                if got != exp:
+                    failures.append({"kind": "P", "part": "inherited", "features": ["inherited-serializer"], "hierarchy": "A <- B <- C <- D; serializer on A (inherited)",
+                                     "own_serializers(inherited flag)": flags, "call": what, "got": repr(got)[:200], "expected": repr(exp), "why": ["image-is-not-the-one-of-the-applicable-serializer"], "k_ok": None})
+                    hist["P:image-is-not-the-one-of-the-applicable-serializer"] += 1; break
+    return failures, n
+
+
 def _json_value(rnd, depth):
     r = rnd.random()
     if depth <= 0 or r < 0.35:
@@ -494,6 +536,8 @@ def is_known(kid, case):
 
 def replay(prop, case, ctx):
     from apischema import deserialize, serialize
+    if case.get("part") == "inherited":
+        return {k: case[k] for k in ("hierarchy", "own_serializers(inherited flag)", "call", "got", "expected", "why")}
     if case.get("part") == "skip":
         return {k: case[k] for k in ("class_src", "value", "sopts", "serialized", "expected_keys", "why")}
     if case.get("part") == "ordered":
